@@ -234,3 +234,30 @@ async fn c20_hedge_every_attempt_on_a_ready_instance_fixed() {
     let _ = svc.ready().await.unwrap().call("x".to_string()).await;
     assert_eq!(v.load(Ordering::SeqCst), 0, "the C20 defect is back: a hedged attempt went to an instance not observed ready");
 }
+
+/// C06 (FIXED by "fix: time limiter (non-cancelling mode) checks the finished call before the expired timer"): before the fix the
+/// non-cancelling branch raced `rx` and `sleep` in an unbiased `tokio::select!`; polled late (both ready) it reported a timeout
+/// for a call that had finished long before its deadline, about every second time. Twelve rounds: the old code failed with
+/// probability 1 - 2^-12.
+#[tokio::test]
+async fn c06_result_before_deadline_wins_when_polled_late_fixed() {
+    use tower_resilience_timelimiter::TimeLimiterLayer;
+    for _round in 0..12 {
+        let (go_tx, go_rx) = tokio::sync::oneshot::channel::<()>();
+        let go_rx = Arc::new(std::sync::Mutex::new(Some(go_rx)));
+        let svc = tower::service_fn(move |_: ()| {
+            let go_rx = go_rx.lock().unwrap().take().expect("called once");
+            async move { let _ = go_rx.await; Ok::<&'static str, String>("inner result") }
+        });
+        let layer = TimeLimiterLayer::builder().timeout_duration(Duration::from_millis(150)).cancel_running_future(false).build();
+        let mut service = layer.layer(svc);
+        let fut = service.ready().await.unwrap().call(());
+        tokio::pin!(fut);
+        assert!(futures::poll!(fut.as_mut()).is_pending());          // starts the inner call, arms the 150 ms deadline
+        tokio::time::sleep(Duration::from_millis(20)).await;
+        go_tx.send(()).unwrap();                                       // the inner call finishes at ~20 ms
+        tokio::time::sleep(Duration::from_millis(230)).await;          // the owner polls again only at ~250 ms
+        let out = fut.await;
+        assert_eq!(out.ok(), Some("inner result"), "the C06 defect is back: a call that finished before its deadline was reported as timed out");
+    }
+}
